@@ -34,6 +34,10 @@ PROPS = {
             "rule": "one evaluation = one plan: a history of 0-50 (thorough: 120) frames on the server's COB-ID (structured requests, garbage, abandoned reference sessions), then a client abort or an NMT reset communication/node, then 1-3 clean transfers from a covering set which must be confirmed with correct data; non-trivial = a clean transfer ran after recovery; distinct = distinct hash of (abstract server state via public struct, command class) sequence",
             "probes": ["clean-transfer-after-recovery", "history-session", "reset-communication", "confirmed"],
             "assumptions": ["the dictionary holds plain data objects only, 1200h entries are constant, so no history can legitimately reconfigure the server"]},
+    "C09": {"scenario": "nmt", "level": "exploration", "runs": {"quick": 200000, "thorough": 10000000},
+            "rule": "one evaluation = one plan of 2-20 (thorough: 40) operations over {NMT command x target x DLC, CONodeStart, CONmtSetMode, CONmtReset, CONodeStop + re-init, one probe per service (SDO upload, RPDO, SYNC, heartbeat of the monitored node, LSS, foreign frame, EMCY set/clear, TPDO trigger, one heartbeat period)}; after every operation mode, boot-up count, callbacks, emitted frames and object side effects are compared with the NMT/gating model; variants give an RPDO the SYNC or the SDO COB-ID; non-trivial = the mode changed at least once; distinct = distinct hash of the (mode before, operation, NMT cs, target class) sequence",
+            "probes": ["nmt-reset", "api-reset", "node-stop", "nmt-foreign-target", "nmt-same-state", "nmt-unknown-cs", "mode4-p_sdo", "mode4-p_rpdo", "mode4-p_sync", "mode4-p_emcy", "mode4-p_tick", "mode2-p_rpdo", "mode2-p_sync", "mode3-p_sync", "mode1-p_sdo", "mode0-p_foreign"],
+            "assumptions": ["NMT frames with DLC < 2 are not constrained; after CONodeStop and in STOPPED an unclaimed frame may reach the application callback at most once"]},
 }
 
 LEVEL_TEXT = {
@@ -43,7 +47,8 @@ LEVEL_TEXT = {
     "C03": "Seeded exploration: reference client uploads with every block size, acknowledge prefix and block-size change; every segment's sequence number, c bit, data and the end frame's n are checked, reassembled bytes compared with storage.",
     "C04": "Seeded exploration of arbitrary requests (all 256 command bytes, existing/absent/wrong-sub multiplexers, arbitrary payload) arriving in idle and in every non-idle server state reached by a conforming prefix; exact abort code in idle state, count/addressee/multiplexer/side effects in all states.",
     "C05": "Seeded exploration of arbitrary frame histories followed by [client abort | NMT reset] and a clean transfer that must succeed: recovery reachability (AG EF idle) sampled over histories; sampling, not explicit-state enumeration.",
+    "C09": "Seeded exploration of NMT command / API / probe sequences against the CiA-301 slave state machine and a per-state gating table; every service is probed in every state after multi-step paths; sampling, not exhaustive to a depth bound.",
 }
 _WIP = "check not built yet in this round (work in progress; see DESIGN.md section 5 for the planned scenario)"
-NOT_APPLICABLE = {p: _WIP for p in ["C01", "C09", "C10", "C11", "C12", "C13", "C14", "C15", "C16", "C17", "C18", "C19", "C20"]}
+NOT_APPLICABLE = {p: _WIP for p in ["C01", "C10", "C11", "C12", "C13", "C14", "C15", "C16", "C17", "C18", "C19", "C20"]}
 NOT_APPLICABLE["C06"] = "pure function of (dictionary, key, value, length): no schedule, clock, peer, fault or history enters it, so deterministic simulation has nothing to decide; deciding it needs input enumeration / bounded model checking, which is another technique (DESIGN.md section 5, C06)"
